@@ -101,8 +101,9 @@ class Check:
         return r
 
     # -- stage: machine-checked proof (TLAPS) ---------------------------------------
-    def tlaps_proof(self, module="DispatcherProof.tla", timeout=1200):
-        """Spec => []IndInv for arbitrary finite job/machine sets, lengths, durations, machine sets."""
+    def tlaps_proof(self, module="DispatcherProof.tla", timeout=1200, theorem="Safety == Spec => []IndInv"):
+        """Spec => []IndInv for arbitrary finite job/machine sets, lengths, durations, machine sets
+        (DispatcherProof.tla); IterSpec => [] pass-yields-exactly-Limit for every limit (GeneratorIterProof.tla)."""
         import re
         import subprocess
         import shutil
@@ -110,14 +111,15 @@ class Check:
         for attempt in (1, 2):
             wd = common.workdir(f"tlaps-{self.pid}")
             cmd = ["tlapm", "--cache-dir", str(wd), "--stretch", "6" if attempt == 1 else "15", "--threads", "8",
-                   "-I", "/opt/veriftools/tlapm/lib/tlaps", module]
+                   "-I", "/opt/veriftools/tlapm/lib/tlaps", "-I", str(SPEC), module]
             t0 = time.time()
             _rc, out = common.run_group(cmd, cwd=SPEC / "tlaps", timeout=timeout)
             shutil.rmtree(wd, ignore_errors=True)
             m = re.search(r"All (\d+) obligations? proved", out)
             if m:
                 n = int(m.group(1))
-                self.notes["tlaps_proof"] = {"module": module, "theorem": "Safety == Spec => []IndInv",
+                self.notes.setdefault("tlaps_proofs", []).append({"module": module, "theorem": theorem, "obligations": n})
+                self.notes["tlaps_proof"] = {"module": module, "theorem": theorem,
                                              "obligations": n, "discharged": n, "wall_s": round(time.time() - t0, 1),
                                              "backends": "SMT (Z3), Zenon, Isabelle, PTL as chosen by tlapm"}
                 return n
